@@ -448,6 +448,76 @@ def rule_get_block(ctx):
     ctx.ob(R, "contains gate", ok, "lookups reachable only when queued.contains(number)" if ok else "lookups reachable: %s" % {k: sorted(v) for k, v in tab.items()}, f.loc())
 
 
+def rule_state_predicates(ctx):
+    R = "C08.10"
+    ctx.rule(R, "state predicates (truth tables): BlockStoreState::contains(n) is true exactly when a last block exists and first <= n <= last.number(); wait_until_queued / wait_until_persisted wait for n < next() of the queued / persisted state")
+    from engine.guards import Inliner
+    BSS = "zksync_consensus_engine::block_store::BlockStoreState"
+    f = ctx.fn(BSS + "::contains")
+
+    def is_last(t):
+        return chain(t)[1][-1:] == ["last"]
+
+    def m_first(a, b):
+        if chain(a)[1][-1:] == ["first"] and b[0] == "param" and b[1] == 2:
+            return 1
+        if chain(b)[1][-1:] == ["first"] and a[0] == "param" and a[1] == 2:
+            return -1
+        return 0
+
+    def m_last(a, b):
+        la = any(x[0] == "call" and x[1].endswith("Last::number") for x in subterms(a))
+        lb = any(x[0] == "call" and x[1].endswith("Last::number") for x in subterms(b))
+        if a[0] == "param" and a[1] == 2 and lb:
+            return 1
+        if b[0] == "param" and b[1] == 2 and la:
+            return -1
+        return 0
+    W = Walker(ctx, f, [Atom("last", "opt", is_last, ["None", "Some"]), Atom("cmp(first,n)", "cmp", m_first, ["<", "=", ">"]), Atom("cmp(n,last)", "cmp", m_last, ["<", "=", ">"])])
+    bad, undec = [], 0
+    for la in ("None", "Some"):
+        for c1 in "<=>":
+            for c2 in "<=>":
+                exp = la == "Some" and c1 in "<=" and c2 in "<="
+                tr = common.ret_truths(ctx, W, f, {"last": la, "cmp(first,n)": c1, "cmp(n,last)": c2})
+                if not tr or None in tr:
+                    undec += 1
+                elif tr != {exp}:
+                    bad.append((la, c1, c2, sorted(tr)))
+    if undec and not bad:
+        ctx.note("C08.10 BlockStoreState::contains: %d of 18 valuations not evaluated - not decided" % undec)
+    ctx.ob(R, "contains(n)", not bad, ("contains(n) == last.is_some() && first <= n <= last.number() (18 valuations)" if not undec else "undecided shape (not reported)") if not bad else
+           "BlockStoreState::contains deviates for (last, first vs n, n vs last.number()) = %s: blocks are claimed present/absent wrongly (peers are asked for blocks they do not have, or never asked)" % bad[:3], f.loc())
+    # wait predicates
+    for fname, what in (("wait_until_queued", "queued"), ("wait_until_persisted", "persisted")):
+        top = ctx.fn(EM + "::" + fname)
+        preds = []
+        for g in common.family(ctx, top, ("closure",)):
+            Tg = ctx.T(g)
+            rt = Inliner(ctx).ret_term(g)
+            if rt is not None and any(x[0] == "call" and x[1].endswith("BlockStoreState::next") for x in subterms(rt)):
+                preds.append(g)
+        ctx.floor(R, "%s predicate" % fname, len(preds), 1)
+        for g in preds:
+            def m_next(a, b):
+                na = any(x[0] == "call" and x[1].endswith("BlockStoreState::next") for x in subterms(a))
+                nb = any(x[0] == "call" and x[1].endswith("BlockStoreState::next") for x in subterms(b))
+                if not na and nb:
+                    return 1
+                if na and not nb:
+                    return -1
+                return 0
+            Wg = Walker(ctx, g, [Atom("cmp(n,next)", "cmp", m_next, ["<", "=", ">"])])
+            res = {c: common.ret_truths(ctx, Wg, g, {"cmp(n,next)": c}) for c in "<=>"}
+            if any((not v) or None in v for v in res.values()):
+                ctx.note("C08.10 %s predicate: not evaluated - not decided" % fname)
+                ctx.ob(R, "%s predicate" % fname, True, "undecided shape (not reported)", g.loc())
+            else:
+                ok = res["<"] == {True} and res["="] == {False} and res[">"] == {False}
+                ctx.ob(R, "%s predicate" % fname, ok, "%s(n) waits for n < %s.next()" % (fname, what) if ok else
+                       "%s(n) returns for (n vs %s.next()) %s: it can return before block n is %s" % (fname, what, {k: sorted(v) for k, v in res.items()}, what), g.loc())
+
+
 def rule_visibility(ctx):
     R = "C08.9"
     ctx.rule(R, "closed world: BlockStore and try_push/update_persisted are not reachable from outside the engine crate (rustc effective visibility)")
@@ -464,4 +534,4 @@ def rule_visibility(ctx):
 
 
 RULES = [("C08.1", rule_verify_before_queue), ("C08.2", rule_single_door), ("C08.3", rule_next_only), ("C08.4", rule_persisted_grows),
-         ("C08.5", rule_eviction), ("C08.6", rule_single_writer), ("C08.7", rule_peer_blocks), ("C08.8", rule_get_block), ("C08.9", rule_visibility)]
+         ("C08.5", rule_eviction), ("C08.6", rule_single_writer), ("C08.7", rule_peer_blocks), ("C08.8", rule_get_block), ("C08.9", rule_visibility), ("C08.10", rule_state_predicates)]
